@@ -335,7 +335,7 @@ def tasks(tier):
     from contracts import dimse_frag as D
     from pyvc.task import NativeBoundedTask
     return [CodecRoundTripTask(), EventAccessTask(), D.GenTask(), D.EncodeTask("mem"), D.EncodeTask("mem-empty"), D.EncodeTask("none"),
-            D.EncodeTask("file"), D.DecodeStepTask(),
+            D.EncodeTask("file"), D.DecodeStepTask(), D.DecodeChunkedTask("C25/"),
             NativeBoundedTask("C25", "dsutils-round-trips-through-the-real-pydicom-codec-and-zlib",
                               ["pynetdicom.dsutils:encode", "pynetdicom.dsutils:decode"])]
 
